@@ -265,6 +265,51 @@ uint64_t vf_last_free_addr() { return g_last_free_a; }
 uint64_t vf_malloc_count() { return g_malloc_count; }
 uint64_t vf_free_count() { return g_free_count; }
 
+// std::thread model for replay (linked with --wrap): starting a std::thread only records it, exactly
+// as in the solver model; its body is run by the harness's model thread n (n-th started thread).
+static uint64_t g_std_threads_started;
+void __wrap__ZNSt6thread15_M_start_threadESt10unique_ptrINS_6_StateESt14default_deleteIS1_EEPFvvE(
+    void* thr, void** state_uptr, void*) {
+  *(uint64_t*)thr = ++g_std_threads_started;
+  struct VState { virtual ~VState(); };
+  VState* st = (VState*)*state_uptr;
+  *state_uptr = nullptr;
+  delete st;
+}
+void __wrap__ZNSt6thread4joinEv(void* thr) {
+  uint64_t id = *(uint64_t*)thr;
+  if (g_threads_used && id >= 1 && id < (uint64_t)kMaxThreads) {
+    for (;;) {
+      pthread_mutex_lock(&g_mu);
+      bool fin = g_finished[id];
+      pthread_mutex_unlock(&g_mu);
+      if (fin) break;
+      vf_yield(-5);
+      pthread_mutex_lock(&g_mu);
+      fin = g_finished[id];
+      if (!fin) {
+        int me = t_id;
+        bool was = g_finished[me];
+        g_finished[me] = true;  // do not pick me while I wait
+        int nxt = pick_next(me, false);
+        g_finished[me] = was;
+        if (nxt < 0) report_deadlock();
+        pass_baton(nxt);
+        wait_for_baton(me);
+      }
+      pthread_mutex_unlock(&g_mu);
+    }
+  }
+  *(uint64_t*)thr = 0;
+}
+void __wrap__ZNSt6thread6detachEv(void* thr) { *(uint64_t*)thr = 0; }
+unsigned __wrap__ZNSt6thread20hardware_concurrencyEv() { return 2; }
+void vf_wait_started(uint32_t n) {
+  while (g_std_threads_started < n) {
+    if (g_threads_used) vf_yield(-6); else break;
+  }
+}
+
 uint8_t vf_nondet_u8() { return (uint8_t)next_input(8); }
 uint16_t vf_nondet_u16() { return (uint16_t)next_input(16); }
 uint32_t vf_nondet_u32() { return (uint32_t)next_input(32); }
